@@ -1,7 +1,7 @@
 (* RunHeap.v — correspondence runner of the heap engine (C05, C06, C08, C09, C10, C11): the model's trace of a program
    against the trace the implementation produced. Container ids are never compared (identity is covered by the canonical hash,
    because every returned container becomes a variable). *)
-From Anytype Require Import Base FloatBits Value Heap RunCommon.
+From Anytype Require Import Base FloatBits Value Heap HeapExt FloatExec RunCommon.
 Local Open Scope Z_scope.
 
 Definition hval_obs_eqb (a b : hval) : bool :=
@@ -34,13 +34,27 @@ Fixpoint first_diff {A B : Type} (eqb : A -> B -> bool) (a : list A) (b : list B
   | _, _ => Some i
   end.
 
-Definition heap_model (prog : list op) : list (outcome * Z) := run init_state prog.
-Definition heap_show (c : list op * list (outcome * Z)) :=
+(* programs are extended programs (HeapExt.v): [Base o] for the operations of Heap.v, plus the rest of the API; the float
+   arithmetic of the aggregates is executed through Coq's primitive IEEE floats (FloatExec.v) *)
+Definition xout_eqb (a b : xout) : bool :=
+  match a, b with
+  | XO x, XO y => out_eqb x y
+  | XBag x, XBag y => perm_eqb hval_obs_eqb x y
+  | XIdx x, XIdx y => list_eqb (fun p q => (fst p =? fst q) && hval_obs_eqb (snd p) (snd q)) x y
+  | XTree x, XTree y => val_eqb x y
+  | _, _ => false
+  end.
+Definition xoutcome_eqb (a b : xoutcome) : bool :=
+  match a, b with XRet x, XRet y => xout_eqb x y | XPan, XPan => true | _, _ => false end.
+Definition step_eqb (a b : xoutcome * Z) : bool := xoutcome_eqb (fst a) (fst b) && (snd a =? snd b).
+
+Definition heap_model (prog : list xop) : list (xoutcome * Z) := xrun x_fadd x_fmul x_fdiv x_of_int init_state prog.
+Definition heap_show (c : list xop * list (xoutcome * Z)) :=
   let '(prog, expected) := c in
-  (first_diff (fun a b => outcome_eqb (fst a) (fst b) && (snd a =? snd b)) (heap_model prog) expected 0%nat, heap_model prog).
-Definition heap_check (c : list op * list (outcome * Z)) : bool :=
+  (first_diff step_eqb (heap_model prog) expected 0%nat, heap_model prog).
+Definition heap_check (c : list xop * list (xoutcome * Z)) : bool :=
   let '(prog, expected) := c in
-  list_eqb (fun a b => outcome_eqb (fst a) (fst b) && (snd a =? snd b)) (heap_model prog) expected.
+  list_eqb step_eqb (heap_model prog) expected.
 
 (* ---------- slice-level programs (Slice.v), run with two growth policies; both must agree with the implementation ---------- *)
 From Anytype Require Import Slice.
@@ -57,9 +71,9 @@ Definition slice_check (c : list cop * list (outcome * list (list hval))) : bool
   list_eqb slice_obs_eqb (slice_trace doubling empty_c prog) expected.
 
 (* C05 and C09 run both kinds of cases *)
-Definition heap_or_slice_check (c : (list op * list (outcome * Z)) + (list cop * list (outcome * list (list hval)))) : bool :=
+Definition heap_or_slice_check (c : (list xop * list (xoutcome * Z)) + (list cop * list (outcome * list (list hval)))) : bool :=
   match c with inl hc => heap_check hc | inr sc => slice_check sc end.
-Definition heap_or_slice_show (c : (list op * list (outcome * Z)) + (list cop * list (outcome * list (list hval)))) :=
+Definition heap_or_slice_show (c : (list xop * list (xoutcome * Z)) + (list cop * list (outcome * list (list hval)))) :=
   match c with
   | inl hc => inl (heap_show hc)
   | inr sc => let '(prog, expected) := sc in
@@ -67,7 +81,7 @@ Definition heap_or_slice_show (c : (list op * list (outcome * Z)) + (list cop * 
                    first_diff slice_obs_eqb (slice_trace doubling empty_c prog) expected 0%nat,
                    slice_trace exact_fit empty_c prog)
   end.
-Definition heap_or_slice_model (c : (list op * list (outcome * Z)) + (list cop * list (outcome * list (list hval)))) :=
+Definition heap_or_slice_model (c : (list xop * list (xoutcome * Z)) + (list cop * list (outcome * list (list hval)))) :=
   match c with
   | inl hc => inl (heap_model (fst hc))
   | inr sc => inr (slice_trace exact_fit empty_c (fst sc), slice_trace doubling empty_c (fst sc))
